@@ -69,8 +69,14 @@ BuildEv ==
      \/ E.ev = "AppGroup" /\ AppGroup(E.c, E.n, E.refs, E.d)
      \/ E.ev = "AddRef" /\ AddRef(E.c, E.d)
      \/ E.ev = "Clone" /\ CloneCell(E.c)
-  /\ Dirty(AllFiles)       \* conservative: any change of the heap may change what any File renders
-  /\ lastplain' = <<>>
+  \* what was observed stays valid unless the call changed a statement that the observed value reaches: a new statement is
+  \* reachable from nothing yet, an append to statement c concerns exactly the values that reach c (C08: "any number of
+  \* times yields identical bytes" - whatever was built elsewhere in between)
+  /\ IF E.ev \in {"NewVar", "NewId", "NewQual", "NewNull", "Clone"}
+     THEN UNCHANGED <<clean, lastfrag, lastplain>>
+     ELSE /\ clean' = [i \in DOMAIN clean |-> IF E.c \in UNION {Reach(cells, b) : b \in BodyCells(i)} THEN "" ELSE clean[i]]
+          /\ lastfrag' = [k \in {x \in DOMAIN lastfrag : E.c \notin Reach(cells, x[1])} |-> lastfrag[k]]
+          /\ lastplain' = [c \in {x \in DOMAIN lastplain : E.c \notin Reach(cells, x)} |-> lastplain[c]]
 FileEv ==
   /\ l <= Len(Trace) /\ l' = l + 1 /\ UNCHANGED tid
   /\ \/ E.ev = "FileAdd" /\ FileAdd(E.f, E.c)
@@ -193,7 +199,7 @@ PlainEv ==
 \* from).  The harness executes behaviours in child processes and records such a behaviour as one event.
 CrashEv ==
   /\ Consume("Crash") /\ tid' = E.trace
-  /\ Report("C02", "the library killed the process: " \o E.msg)
+  /\ Report("CRASH", "the library killed the process: " \o E.msg)
   /\ UNCHANGED <<vars, clean, lastfrag, lastplain>>
 
 TNext == CrashEv \/ FilesEv \/ BuildEv \/ FileEv \/ RenderEv \/ FragEv \/ PlainEv
